@@ -3,8 +3,8 @@ EXTENDS PipelineHist
 Fl(n, s, v) == [newer |-> n, stateful |-> s, variant |-> v]
 Flav_plain == {Fl(FALSE, FALSE, "plain")}
 Flav_two == {Fl(FALSE, FALSE, "plain"), Fl(TRUE, TRUE, "shadow")}
-Flav_shadow == {Fl(FALSE, FALSE, "plain"), Fl(FALSE, TRUE, "shadow"), Fl(TRUE, FALSE, "shadow"), Fl(TRUE, TRUE, "big")}
-Flav_shadowQ == {Fl(FALSE, TRUE, "shadow"), Fl(TRUE, TRUE, "big")}
+Flav_shadow == {Fl(FALSE, FALSE, "plain"), Fl(FALSE, TRUE, "shadow"), Fl(TRUE, FALSE, "shadow"), Fl(TRUE, TRUE, "big"), Fl(FALSE, FALSE, "split")}
+Flav_shadowQ == {Fl(FALSE, TRUE, "shadow"), Fl(TRUE, TRUE, "big"), Fl(FALSE, FALSE, "split")}
 Flav_stateful == {Fl(FALSE, TRUE, "plain"), Fl(TRUE, TRUE, "plain")}
 Flav_all4 == {Fl(n, s, "plain") : n \in BOOLEAN, s \in BOOLEAN} \cup {Fl(TRUE, TRUE, "shadow")}
 =============================================================================
